@@ -2,6 +2,7 @@ package rules
 
 import (
 	"go/ast"
+	"go/token"
 
 	"kadcheck/internal/eng"
 )
@@ -307,6 +308,52 @@ func runC07(c *Ctx) {
 			okParse, _ := lcf.Guarded(lcf.LocOf(sv), func(ft eng.Fact) bool { return ft.ErrOf(true, "dht/records.readTimeValue") })
 			c.Check(K(l.Name, "load behind age test"), sv.Pos(), okAge, "an entry loaded from disk is kept only if its timestamp is within the validity period", "setVal not guarded by !(now.Sub(t) > provideValidity)")
 			c.Check(K(l.Name, "load behind parse"), sv.Pos(), okParse, "an entry with an unparsable timestamp is not served", "setVal not behind readTimeValue success")
+		}
+		// the set is reported (and then cached) as complete only when the scan ran to the end of
+		// the results: a successful return lies behind the exhaustion of the result stream
+		nextCalls := l.Calls("(github.com/ipfs/go-datastore/query.Results).NextSync")
+		for i, ret := range lcf.Returns() {
+			if len(ret.Results) != 2 || !isNil(linfo, ret.Results[1]) {
+				continue
+			}
+			ok := false
+			if len(nextCalls) > 0 {
+				ok, _ = lcf.Guarded(lcf.LocOf(ret), func(ft eng.Fact) bool {
+					o, truth, isB := ft.BoolVar()
+					if !isB || truth {
+						return false
+					}
+					rhs, idx := lcf.LastAssign(ft.B, o)
+					_, isNext := eng.IsCallTo(linfo, defOrNil(rhs), "(github.com/ipfs/go-datastore/query.Results).NextSync")
+					return isNext && idx == 1
+				})
+			} else {
+				// `for e := range res.Next()`: left only by exhaustion when nothing breaks out of it
+				l.Walk(func(x ast.Node) bool {
+					rg, isRg := x.(*ast.RangeStmt)
+					if !isRg {
+						return true
+					}
+					if _, isNext := eng.IsCallTo(linfo, rg.X, "(github.com/ipfs/go-datastore/query.Results).Next"); !isNext {
+						return true
+					}
+					leaves := false
+					ast.Inspect(rg.Body, func(y ast.Node) bool {
+						switch b := y.(type) {
+						case *ast.FuncLit:
+							return false
+						case *ast.BranchStmt:
+							if b.Tok == token.GOTO || (b.Tok == token.BREAK && (b.Label != nil || !insideInnerBreakable(c.P, b, rg))) {
+								leaves = true
+							}
+						}
+						return true
+					})
+					ok = !leaves && lcf.Dominates(lcf.LocOf(rg.X), lcf.LocOf(ret))
+					return true
+				})
+			}
+			c.Check(K(l.Name, "return#"+itoa(i)+" complete scan"), ret.Pos(), ok, "the provider set read from disk is returned as a success (and then cached as the key's set) only after the whole result stream was read", "a successful return is reachable while results are still unread (a partial set would be cached and later queries would omit valid providers)")
 		}
 	}
 
